@@ -18,8 +18,27 @@ from flodym.data_reader import (CompoundDataReader, CSVDimensionReader, ExcelDim
 LT = {"fixed": FixedLifetime, "normal": NormalLifetime, "folded": FoldedNormalLifetime, "lognormal": LogNormalLifetime,
       "weibull": WeibullLifetime}
 CLS = {"simple": SimpleFlowDrivenStock, "inflow": InflowDrivenDSM, "stockdriven": StockDrivenDSM}
+
+
+class MyFlowStock(SimpleFlowDrivenStock):
+    """what a model author writes: a stock class of one's own, derived from a library class"""
+
+
+class MyInflowDSM(InflowDrivenDSM):
+    pass
+
+
+class MyStockDSM(StockDrivenDSM):
+    pass
+
+
+SUB = {"simple": MyFlowStock, "inflow": MyInflowDSM, "stockdriven": MyStockDSM}
+
+
+def cls_of(s):
+    return SUB[s["cls"]] if s.get("sub") else CLS[s["cls"]]
 NAMING = {"arrow": process_names_with_arrow, "no_spaces": process_names_no_spaces, "ids": process_ids}
-DIMNAMES = {"t": "Technology", "a": "Alpha", "b": "Beta Region", "c": "Gamma", "e": "Element"}
+DIMNAMES = {"t": "Technology", "a": "Alpha", "b": "Beta Region", "c": "Gamma", "e": "Element", "R": "Destination", "1": "Origin", "_": "Vintage"}
 PROC_POOL = ["use", " sorting", "use phase", "waste mgmt.", "re-use (2)", "Fab/rication", "shredder & sorter", "Recycling -> out", "end of life", "market", "waste outflow", "phase market"]
 STOCK_NAMES = ["in use", "landfill (old) ", "obsolete-stock", "hibernating"]
 PARAM_NAMES = ["yield", "split share", " lifetime mean", "demand"]
@@ -49,19 +68,23 @@ def gen_sysworld(rng, small=False):
                                                                 else [1990, 1995, 2000, 2010, 2030][:nt])
     tl = rng.choice(["t", "t", "y"])  # the time dimension is not always lettered 't' (the default of StockDefinition.time_letter)
     dims = [{"letter": tl, "name": "Time" if tl == "t" else "Year", "items": t, "dtype": "int"}]
-    for letter in rng.sample("abcet" if tl == "y" else "abce", rng.randint(1, 2 if small else 3)):
+    pool = "abcet" if tl == "y" else "abce"
+    if not small and rng.chance(0.2):
+        pool += "R1_"  # any single character is a legal dimension letter (origin '1' and destination '2', upper case, ...)
+    for letter in rng.sample(pool, rng.randint(1, 2 if small else 3)):
         n = rng.randint(1, 3)
         kind = rng.weighted([("str", 4), ("int", 4), ("float", 1)])
-        items = [f"{letter}{j}x" for j in range(n)] if kind == "str" else [{"a": 100, "b": 200, "c": 300, "e": 500, "t": 700}[letter] + j for j in range(n)]
+        items = [f"{letter}{j}x" for j in range(n)] if kind == "str" else [{"a": 100, "b": 200, "c": 300, "e": 500, "t": 700, "R": 800, "1": 900, "_": 1100}[letter] + j for j in range(n)]
         if kind == "float":
             # e.g. a 'share' or 'size class' dimension; whole numbers are written without a decimal point in the files
-            offset = {"a": 0.0, "b": 16.0, "c": 32.0, "e": 48.0, "t": 64.0}[letter]  # pairwise disjoint item sets across dimensions
+            offset = {"a": 0.0, "b": 16.0, "c": 32.0, "e": 48.0, "t": 64.0, "R": 80.0, "1": 96.0, "_": 112.0}[letter]  # pairwise disjoint item sets across dimensions
             items = [x + offset for x in [[0.5, 1.0, 2.0], [0.25, 3.0, 7.5], [10.0, 0.125, 4.0]][(ord(letter) + n) % 3][:n]]
         if kind == "str":
             flavour = rng.weighted([("plain", 5), ("numeric_looking", 3), ("awkward", 1), ("name_like", 1)])
             if flavour == "numeric_looking":
                 # a str-typed dimension whose file holds number-like cells next to text
-                items = items[:1] + [str({"a": 1000, "b": 2000, "c": 3000, "e": 5000, "t": 7000}[letter] + 50 * j) for j in range(1, n)]
+                items = items[:1] + [str({"a": 1000, "b": 2000, "c": 3000, "e": 5000, "t": 7000, "R": 8000, "1": 9000, "_": 11000}[letter] + 50 * j)
+                                     for j in range(1, n)]
                 if rng.chance(0.3):
                     items = items[::-1]
             elif flavour == "awkward":
@@ -118,7 +141,7 @@ def gen_sysworld(rng, small=False):
     for k in range(rng.randint(0, 2 if small else 3)):
         cls = rng.choice(list(CLS))
         others = rng.subset([l for l in letters if l != tl], 0, 2)
-        stocks.append({"name": STOCK_NAMES[k], "cls": cls, "lt": None if cls == "simple" else rng.choice(list(LT)),
+        stocks.append({"name": STOCK_NAMES[k], "cls": cls, "sub": rng.chance(0.15), "lt": None if cls == "simple" else rng.choice(list(LT)),
                        "solver": rng.choice(["manual", "lapack"]), "process": rng.choice([None, 0] + list(range(1, npr + 1)) * 2),
                        "dims": [tl] + others})
     # ---- parameters
@@ -129,6 +152,8 @@ def gen_sysworld(rng, small=False):
         params.append({"name": PARAM_NAMES[k], "dims": pdims, "vseed": rng.randint(0, 10 ** 6),
                        "layout": {"wide": (rng.randint(0, len(pdims) - 1) if rng.chance(0.3) else None),
                                   "header": rng.choice(["names", "letters"]), "shuffle": rng.randint(0, 10 ** 6)}})
+        if any(not l.isalpha() for l in pdims):
+            params[-1]["layout"]["header"] = "names"  # a header cell "1" comes back from a spreadsheet as the number 1
     build = {"path": rng.weighted([("direct", 3), ("reader", 2), ("csv", 3), ("excel", 2)]),
              "dimfiles": {d["letter"]: {"orient": rng.choice(["row", "col"]), "header": rng.chance(0.5)} for d in dims},
              "sheets": rng.chance(0.6), "one_workbook": rng.chance(0.5), "flags": [rng.chance(0.3), rng.chance(0.3)],
@@ -174,6 +199,9 @@ def make_definition(world, faults=()):
     procs = list(world["processes"])
     if "sysenv_not_first" in fl and len(procs) > 1:
         procs = [procs[1], procs[0]] + procs[2:]
+    if "first_process_not_sysenv" in fl:
+        # the list starts with something that is not the system environment - a fragment of its name, another spelling, nothing
+        procs = [["env", "sys", "s", "Sysenv", "sysenv ", "", "system environment"][fl["first_process_not_sysenv"]["k"] % 7]] + procs[1:]
     flows = []
     for k, f in enumerate(world["flows"]):
         dl = tuple(f["dims"])
@@ -192,7 +220,7 @@ def make_definition(world, faults=()):
     stocks = []
     for k, s in enumerate(world["stocks"]):
         dl = tuple(s["dims"])
-        kw = {"name": s["name"], "dim_letters": dl, "subclass": CLS[s["cls"]]}
+        kw = {"name": s["name"], "dim_letters": dl, "subclass": cls_of(s)}
         if world["dims"][0]["letter"] != "t" or (alias + k) % 2:
             kw["time_letter"] = world["dims"][0]["letter"]
         pkey = "process_name" if (alias + k) % 2 else "process"
@@ -264,7 +292,8 @@ def fault_applicable(world, f):
 
 
 DEF_FAULTS = ["flow_undefined_dim", "flow_undefined_process", "stock_undefined_dim", "stock_undefined_process",
-              "stock_missing_lifetime", "stock_unused_lifetime", "stock_time_not_first", "param_undefined_dim", "sysenv_not_first"]
+              "stock_missing_lifetime", "stock_unused_lifetime", "stock_time_not_first", "param_undefined_dim", "sysenv_not_first",
+              "first_process_not_sysenv"]
 FILE_FAULTS = ["dimfile_2d", "missing_dim_file", "missing_param_file", "missing_sheet", "param_row_dropped", "param_row_duplicated", "param_row_unknown",
                "dim_file_eio", "param_file_eacces"]
 
